@@ -293,7 +293,19 @@ func (o *ovsdbClient) connect(ctx context.Context, reconnect bool) error {
 				continue
 			}
 
-			// Restart all monitors; each monitor will handle purging
+			// With several monitors every reply is a complete dump of that
+			// monitor's own tables only: drop the old contents once, before
+			// any of them is restarted, and ask every monitor for all its data
+			if len(db.monitors) > 1 {
+				db.cacheMutex.Lock()
+				db.cache.Purge(db.model)
+				db.cacheMutex.Unlock()
+				for _, request := range db.monitors {
+					request.LastTransactionID = emptyUUID
+				}
+			}
+
+			// Restart all monitors; a single monitor will handle purging
 			// the cache if necessary
 			for id, request := range db.monitors {
 				err := o.monitor(ctx, MonitorCookie{DatabaseName: dbName, ID: id}, true, request)
@@ -1051,8 +1063,10 @@ func (o *ovsdbClient) monitor(ctx context.Context, cookie MonitorCookie, reconne
 	// MonitorCondSince one, whose LastTransactionID was known to the
 	// server. In this case the reply contains only updates to the existing
 	// cache data, while otherwise it includes complete DB data so we must
-	// purge to get rid of old rows.
-	if reconnecting && (len(db.monitors) > 1 || !lastTransactionFound) {
+	// purge to get rid of old rows. With several monitors the cache was
+	// purged once before they were restarted: purging here would drop what
+	// the monitors restarted before this one have just populated.
+	if reconnecting && len(db.monitors) == 1 && !lastTransactionFound {
 		db.cache.Purge(db.model)
 	}
 
